@@ -3,6 +3,7 @@ import MmtkModel.Model.SpaceDescriptor
 import Driver.Layout.Desc
 import Driver.Layout.CSM
 import Driver.Layout.Resolve
+import Driver.Layout.Map32
 /-! package `Layout` (see CONVENTIONS.md): register components in `step`.
 `cfg` lines this package cares about may be matched here too (they must answer "ok");
 every package sees every `cfg` line. -/
@@ -15,11 +16,14 @@ structure St where
   layout : Mmtk.Layout.VMLayout := Mmtk.Layout.layout64
   csm : CSM.St := {}
   resolve : Resolve.St := {}
+  map32 : Map32.DSt := {}
 
 /-- `none` = not a component of this package. -/
 def step (st : St) (toks : List String) : Option (St × String) :=
   match toks with
   | "desc" :: args => some (st, Desc.run st.layout st.debug args)
+  | "map32" :: args =>
+    let (c, o) := Map32.step st.debug st.map32 args; some ({ st with map32 := c }, o)
   | "resolve" :: args =>
     let (c, o) := Resolve.step st.layout st.debug st.resolve args; some ({ st with resolve := c }, o)
   | "csm" :: args => let (c, o) := CSM.step st.csm args; some ({ st with csm := c }, o)
